@@ -309,6 +309,21 @@ impl<L: Lit> Renumber<L> {
     fn transfer(&mut self, lit: L) -> Result<L, AigStructureError<L>> {
         let mut state = State::Transfer { lit };
         'outer: loop {
+            #[cfg(flussab_verif)]
+            {
+                let (tag, l) = match &state {
+                    State::Transfer { lit } => ("Transfer", lit.code()),
+                    State::Input0 { lit, .. } => ("Input0", lit.code()),
+                    State::Input1 { lit, .. } => ("Input1", lit.code()),
+                    State::Return { transferred } => ("Return", transferred.code()),
+                };
+                flussab::verif::emit(flussab::verif::Event::Tr {
+                    state: tag,
+                    lit: l,
+                    depth: self.stack.len(),
+                    last_code: self.last_code,
+                });
+            }
             match state {
                 State::Transfer { lit } => {
                     if let Some(transferred) = self.lit_map.get(lit) {
